@@ -561,6 +561,37 @@ func init() {
 		case "write-nodir":
 			s := genSubs(newRng(1, "subs"), a[1])
 			return errClass(s.Write(filepath.Join(dir, "missing-dir", "x."+a[1])))
+		case "write-full":
+			// the destination can be created but every write to it fails (device full)
+			if _, err := os.Stat("/dev/full"); err != nil {
+				return "no-dev-full"
+			}
+			p := filepath.Join(dir, "full."+a[1])
+			if err := os.Symlink("/dev/full", p); err != nil {
+				return "no-dev-full"
+			}
+			s := genSubs(newRng(1, "subs"), a[1])
+			return errClass(s.Write(p))
+		case "write-ok":
+			// the file holds exactly what the format's writer produces
+			s := genSubs(newRng(2, "subs"), a[1])
+			p := filepath.Join(dir, "ok."+a[1])
+			if err := s.Write(p); err != nil {
+				return errClass(err)
+			}
+			var b bytes.Buffer
+			f := a[1]
+			if f == "ass" {
+				f = "ssa"
+			}
+			if err := writeRaw(f, s, &b); err != nil {
+				return "writer-" + errClass(err)
+			}
+			got, _ := ioutil.ReadFile(p)
+			if !bytes.Equal(got, b.Bytes()) {
+				return "file-differs"
+			}
+			return "ok"
 		case "write-ext":
 			s := genSubs(newRng(1, "subs"), "srt")
 			err := s.Write(filepath.Join(dir, "x."+a[1]))
@@ -594,6 +625,8 @@ func init() {
 			if e != "ts" {
 				c.do("io.file write-nodir " + e)
 				c.do("io.file write-empty " + e)
+				c.do("io.file write-full " + e)
+				c.do("io.file write-ok " + e)
 			}
 		}
 		for _, e := range []string{"txt", "sub", "srtx", "", "SRT", "Vtt", "ts"} {
